@@ -13,7 +13,7 @@ RULE = (
     "divisions/meta are not derivable from its operands alone (set_index / sort_values / repartition / quantile-based) or a partition-filtered or fused node; distinct by (program hash, form)"
 )
 ASSUMPTIONS = ["UDFs are importable from vlib.udfs in the receiving interpreter (pickled by reference)", "delayed-backed sources are picklable graphs of pure functions"]
-BUDGET_S = {"quick": 240, "thorough": 3000}
+BUDGET_S = {"quick": 240, "thorough": 900}
 NO_FRESH_CONFIRM = True  # every case already runs in fresh interpreters
 MINIMISE_EVALS = {"quick": 60, "thorough": 200}
 
